@@ -24,7 +24,7 @@ static void *body(void *p) {
     pthread_barrier_wait(&g_bar);
     for(int r = 0; r < a->rounds; r++) {
         OPN2_MIDIPlayer *d = opn2_init(a->rate); if(!d) return NULL;
-        opn2_switchEmulator(d, a->core); opn2_setNumChips(d, 1); opn2_openBankData(d, g_bank.data(), (long)g_bank.size());
+        opn2_switchEmulator(d, a->core); opn2_setNumChips(d, (a->core == OPNMIDI_EMU_NUKED_YM3438 || a->core == OPNMIDI_EMU_NUKED_YM2612) ? 1 : 2); opn2_openBankData(d, g_bank.data(), (long)g_bank.size());
         opn2_rt_noteOn(d, 0, 60, 120); opn2_rt_noteOn(d, 9, 40, 100); opn2_generate(d, 600, buf); opn2_rt_pitchBend(d, 0, 9000); opn2_generate(d, 600, buf);
         opn2_openBankData(d, g_bank.data(), 10);     // a failing call: writes the per-instance error string
         opn2_close(d);
